@@ -626,7 +626,9 @@ func (p *Parser) parseCreateIndex(unique bool) (*ast.CreateIndexStatement, error
 	// Parse optional USING
 	if p.isType(models.TokenTypeUsing) {
 		p.advance() // Consume USING
-		if !p.isIdentifier() {
+		// Index methods such as "hash" are also keywords of the tokenizer:
+		// accept any word here, not only plain identifiers
+		if !p.isIdentifier() && !p.isType(models.TokenTypeKeyword) {
 			return nil, p.expectedError("index method")
 		}
 		stmt.Using = p.currentToken.Literal
